@@ -23,6 +23,8 @@ CLAIMED = {
          "All 38 write sinks classified (never inside an input), default outputs are normalised siblings, read-only tools reach no sink, no sink under a completing broad handler, lazy pool results fetched, CLI handlers exit non-zero."),
  "C15": ("E1 scan invariant + pool/iterator protocol rules",
          "Whole-FAB advance 8*C*N per scan iteration, one append per header, np.unique over the level's file table, chained iterator protocol, ordered on-demand iterator."),
+ "C17": ("E1 on the conversion worker (8 flag paths, ghost-trim extent algebra) + positional task roles + E4 + E5",
+         "State scan with whole-FAB advance, subsets seek-addressed with their own offsets, F-order reshape of every subset, per-axis ghost strip, [state ++ gradp ++ I_R] order under the flags, header count, min/max source, flooring; 11-slot task vs unpack; offset-sorted scatter map; names/count; grid and per-direction box-bound formulas; Header and Cell_H writer grammars; CLI polarity; sinks under pltdir."),
  "C20": ("assume/guarantee over parser summaries, checked pairs and reader pre-conditions",
          "Validator and reader share parser summaries and table rows; validator post-conditions cover the reader's pre-conditions."),
 }
